@@ -551,12 +551,86 @@ def _workload(prog, ctx, fn, sx, w, t, k, R, np):
                witness=bad or None, form=forms[:600])
 
 
+def range_closed_form(prog, ctx, fn):
+    """Range written with a precomputed length: the returned list has a closed form (element k and length as terms in
+    min, max, stepsize); the term is evaluated on the property's complete domain, min,max in [-40,40], stepsize 1..40.
+    Returns True when the rule was decided this way."""
+    import numpy as np
+    from ..symx import strict_ranges
+    R = 'C19.e'
+    sx = Symx(prog, fn)
+    mn, mx, stp = (sx.symbol(p_['name'], p_['ty']) for p_ in fn.params)
+    k = Symbol('k', integer=True)
+    try:
+        with strict_ranges():
+            outs = sx.run()
+            rets = [o for o in outs if o.kind == 'return']
+            if len(rets) != len(outs) or not rets:
+                return False
+            forms = []
+            for o in rets:
+                v = o.value
+                if not isinstance(v, Arr) or v.length is None or v.opaque:
+                    return False
+                el = v.read((k,))
+                # elements the function never wrote (k outside the written range) read as an impossible value
+                el = el.replace(lambda e_: isinstance(e_, sp.core.function.AppliedUndef) and e_.func.__name__ == str(v.name), lambda e_: sp.Integer(-10 ** 9))
+                if (el.free_symbols | v.length.free_symbols | o.cond.free_symbols) - {mn, mx, stp, k}:
+                    return False
+                if el.atoms(sp.core.function.AppliedUndef) - set(a_ for a_ in el.atoms(sp.core.function.AppliedUndef) if a_.func.__name__ == 'IntDiv'):
+                    return False
+                forms.append((o.cond, el, v.length))
+    except Undecided:
+        return False
+    mods = [{'IntDiv': lambda a, b: np.trunc(np.asarray(a, dtype=np.float64) / np.asarray(b, dtype=np.float64)).astype(np.int64), 'Mod': np.fmod}, 'numpy']
+    try:
+        fs = [(sp.lambdify((mn, mx, stp), c_, modules=mods), sp.lambdify((mn, mx, stp, k), e_, modules=mods), sp.lambdify((mn, mx, stp), l_, modules=mods), e_, l_)
+              for c_, e_, l_ in forms]
+    except Exception:
+        return False
+    bad = []
+    ncases = 0
+    A, B = np.meshgrid(np.arange(-40, 41, dtype=np.int64), np.arange(-40, 41, dtype=np.int64), indexing='ij')
+    A, B = A.ravel(), B.ravel()
+    K = np.arange(0, 90, dtype=np.int64)[None, :]
+    for sv in range(1, 41):
+        Sv = np.full(A.shape, sv, dtype=np.int64)
+        want_len = np.where(A < B, (B - A + sv - 1) // sv, np.where(A > B, (A - B + sv - 1) // sv, 0))
+        want = np.where((A < B)[:, None], A[:, None] + K * sv, A[:, None] - K * sv)
+        sel = np.zeros(A.shape, dtype=np.int64)
+        glen = np.zeros(A.shape, dtype=np.int64)
+        gel = np.zeros(want.shape, dtype=np.int64)
+        for cf, ef, lf, e_, l_ in fs:
+            c = np.broadcast_to(np.asarray(cf(A, B, Sv), dtype=bool), A.shape)
+            sel += c
+            glen = np.where(c, np.broadcast_to(np.asarray(lf(A, B, Sv)), A.shape).astype(np.int64), glen)
+            full = lambda z_: np.ascontiguousarray(np.broadcast_to(z_, want.shape))
+            ev = np.broadcast_to(np.asarray(ef(full(A[:, None]), full(B[:, None]), full(Sv[:, None]), full(K)), dtype=np.float64), want.shape)
+            gel = np.where(c[:, None], np.rint(ev).astype(np.int64), gel)
+        ncases += A.size
+        m1 = (sel != 1) | (glen != want_len)
+        inr = K < want_len[:, None]
+        m2 = ((gel != want) & inr).any(axis=1)
+        m = m1 | m2
+        if m.any() and len(bad) < 3:
+            i_ = int(np.argmax(m))
+            bad.append({'min': int(A[i_]), 'max': int(B[i_]), 'stepsize': sv, 'returned_length': int(glen[i_]), 'expected_length': int(want_len[i_]),
+                        'returned': [int(x_) for x_ in gel[i_][:max(0, min(int(glen[i_]), 8))]], 'expected': [int(x_) for x_ in want[i_][:min(int(want_len[i_]), 8)]]})
+    ctx.decide(R, 'Range:closed-form', fn, not bad, 'element k = %s, length %s: equals the stated half-open range on all %d (min,max,stepsize) cases' % (forms[0][1], forms[0][2], ncases),
+               'the returned list differs from the stated range, e.g. %s' % bad[:1], witness={'cases': bad} if bad else None)
+    return True
+
+
 def int_range(prog, ctx):
     R = 'C19.e'
     fn = prog.fn(L + 'Range', 3)
+    if range_closed_form(prog, ctx, fn):
+        r1_only = True
+    else:
+        r1_only = False
     sx = Symx(prog, fn)
     mn, mx, stp = (sx.symbol(p_['name'], p_['ty']) for p_ in fn.params)
-    loops = [s for s in walk_stmts(fn.body) if s['k'] in ('For', 'While')]
+    loops = [s for s in walk_stmts(fn.body) if s['k'] in ('For', 'While')] if not r1_only else []
     seen = {}
     for lp in loops:
         inst = 'Range:loop@%s' % ('asc' if 'asc' not in seen else 'x')
@@ -603,7 +677,9 @@ def int_range(prog, ctx):
             probs.append('advances by %s per element, expected %s' % (step, want_step))
         ctx.decide(R, 'Range:%s' % kind, fn, not probs, '%s: i = min, min%sstep, ... while i %s max; every i is appended' % (kind, '-' if desc else '+', '>' if desc else '<'),
                    'the %s enumeration is wrong: %s' % (kind, '; '.join(probs)), line=lp['l'])
-    if seen.get('ascending', 0) != 1 or seen.get('descending', 0) != 1:
+    if r1_only:
+        pass
+    elif seen.get('ascending', 0) != 1 or seen.get('descending', 0) != 1:
         ctx.undecided(R, 'Range:branches', fn, 'expected one ascending and one descending enumeration, found %s' % seen)
     else:
         ctx.holds(R, 'Range:branches', fn, 'descending iff min>max and stepsize>0; ascending otherwise')
